@@ -6,6 +6,8 @@
 
 static dispatch_queue_t Q[QP_MAXQ];
 static dispatch_group_t g_group;
+static dispatch_semaphore_t g_xsem;   // 'x' items block on it, the 'y' item releases them
+static int g_nx;
 static const qprog *g_p;
 static int g_items_expected, g_items_ended, g_gate_open, g_threads_done;
 static int g_ended[8192];
@@ -74,6 +76,22 @@ static void body(int id)
 	g_items_ended++;
 }
 static void item_fn(void *ctx) { body((int)(intptr_t)ctx); }
+static void xitem_fn(void *ctx)
+{
+	int id = (int)(intptr_t)ctx;
+	vx_ev(EV_START, id, 0);
+	dispatch_semaphore_wait(g_xsem, DISPATCH_TIME_FOREVER);   // every pool thread may end up parked here
+	vx_ev(EV_END, id, 0);
+	g_ended[id] = 1; g_items_ended++;
+}
+static void yitem_fn(void *ctx)
+{
+	int id = (int)(intptr_t)ctx;
+	vx_ev(EV_START, id, 0);
+	for (int i = 0; i < g_nx; i++) dispatch_semaphore_signal(g_xsem);
+	vx_ev(EV_END, id, 0);
+	g_ended[id] = 1; g_items_ended++;
+}
 static void apply_fn(void *ctx, size_t i) { body((int)(intptr_t)ctx + 1000 * ((int)i + 1)); }
 static void warm_fn(void *ctx) { *(int *)ctx = 1; }
 
@@ -87,6 +105,8 @@ static void do_ops(int t)
 		vx_ev(EV_CALL, id, o->op);
 		switch (o->op) {
 		case 'a': case 'p': dispatch_async_f(q, ctx, item_fn); break;
+		case 'x': dispatch_async_f(q, ctx, xitem_fn); break;
+		case 'y': dispatch_async_f(q, ctx, yitem_fn); break;
 		case 'b': dispatch_barrier_async_f(q, ctx, item_fn); break;
 		case 'g': dispatch_group_async_f(g_group, q, ctx, item_fn); break;
 		case 's': dispatch_sync_f(q, ctx, item_fn); break;
@@ -136,6 +156,8 @@ void qp_run(const qprog *p)
 		if (op_is_item(o)) g_items_expected += op_iters(o) ? op_iters(o) : 1;
 	}
 	g_group = dispatch_group_create();
+	g_xsem = dispatch_semaphore_create(0); g_nx = 0;
+	for (int t = 0; t < p->nthr; t++) for (int k = 0; k < p->nops[t]; k++) if (p->ops[t][k].op == 'x') g_nx++;
 	for (int i = 0; i < p->nq; i++) {
 		const qp_qdef *d = &p->q[i];
 		dispatch_queue_t tq = d->target >= 0 ? Q[d->target] : NULL;
